@@ -29,6 +29,8 @@ def run(ctx) -> None:
     ctx.rule("ERR3", "a local accumulator of errors that is non-empty never reaches a normal exit without being returned/passed on", floor=200)
     ctx.assume("the (value, error) pair convention is XOR: a non-None value means no error (declared by @ensure on 321 functions)")
     ctx.rule("HANDLER", "every file-system write in an execute() sits in a try whose handler covers I/O and encoding errors (OSError and ValueError), reports to stderr and returns non-zero", floor=14)
+    ctx.rule("EXIT-PROP", "the exit status computed by execute() reaches the process: main()/entry_point() return it and every `if __name__ == '__main__'` block hands it to sys.exit", floor=5)
+    _check_exit_propagation(ctx)
     for f in execute_functions(ctx.p):
         exitcode.check_exit_contract(ctx, f, "ERR4")
         _check_write_handlers(ctx, f)
@@ -78,3 +80,46 @@ def _check_write_handlers(ctx, f) -> None:
                      f"the try around `{short(eff.call)}` has no handler that covers both I/O errors (OSError) and encoding errors (UnicodeEncodeError is a ValueError), reports to stderr and returns non-zero: "
                      f"such a failure ends the run with a traceback and an empty report",
                      construct=what)
+
+
+def _returns_int(ctx, fi) -> bool:
+    r = fi.node.returns
+    return r is not None and dotted_of(r) == "int"
+
+
+def _check_exit_propagation(ctx) -> None:
+    """(a) every module-level ``if __name__ == "__main__":`` block: a call of a function annotated ``-> int`` is the
+    argument of ``sys.exit``; (b) ``main``/``entry_point`` of the two command-line modules return the value of the
+    call they delegate to on every path (no bare ``return`` / fall-through)."""
+    p = ctx.p
+    n_blocks = 0
+    for m in p.modules.values():
+        for st in m.tree.body:
+            if not (isinstance(st, ast.If) and isinstance(st.test, ast.Compare) and dotted_of(st.test.left) == "__name__"):
+                continue
+            n_blocks += 1
+            parents = {}
+            for n in ast.walk(st):
+                for c in ast.iter_child_nodes(n):
+                    parents[id(c)] = n
+            for call in [n for n in ast.walk(st) if isinstance(n, ast.Call)]:
+                r = p.resolve_expr(m, call.func)
+                if r is None or r[0] != "func" or not _returns_int(ctx, r[1]):
+                    continue
+                par = parents.get(id(call))
+                what = f"{m.name}: exit status of {r[1].name}() handed to sys.exit"
+                if isinstance(par, ast.Call) and dotted_of(par.func) in ("sys.exit", "exit", "raise SystemExit", "SystemExit") and call in par.args:
+                    ctx.ok("EXIT-PROP", m, call, what=what)
+                else:
+                    ctx.fail("EXIT-PROP", m, call, f"`{short(call)}` returns the exit status, but the `__main__` block discards it: the process exits 0 even when errors were written to stderr", construct=what)
+    ctx.require_anchor(n_blocks >= 3, "three `if __name__ == '__main__'` blocks (main, smoke.main, __main__)")
+    for key in ("main:main", "main:entry_point", "smoke.main:main", "smoke.main:entry_point"):
+        f = p.func(key)
+        from ..types import _always_exits
+        bad = None if _always_exits(f.node.body) else f.node
+        rets = [n for n in ast.walk(f.node) if isinstance(n, ast.Return)]
+        delegating = [r for r in rets if isinstance(r.value, ast.Call)]
+        if bad is None and delegating and all(r.value is not None for r in rets):
+            ctx.ok("EXIT-PROP", f, delegating[-1], what=f"{f.name} returns the status of {short(delegating[-1].value.func)}")
+        else:
+            ctx.fail("EXIT-PROP", f, f.node, f"{f.name} does not return the exit status of the call it delegates to on every path", construct=f"{f.module.name}.{f.name} returns status")
